@@ -10,6 +10,8 @@ UNITS = [dict(u) for u in _c08.UNITS if u['name'] == 'l2cap_output']
 # repeated requests before transmission: the queue is a set (add returns false and changes nothing if the entry is pending) - contracts in C12.py
 UNITS += [dict(u, enforce=['add', 'at']) for u in _c12.UNITS if u['name'] == 'at_add_remove']
 UNITS += [dict(u, enforce=['queue_notification', 'queue_indication']) for u in _c12.UNITS if u['name'] == 'impl1']
+# the index a notification is requested under by value is the index that is resolved when the PDU is built (C10ni.py)
+UNITS += _load('C10ni').UNITS
 
 META = dict(
     level='other',
@@ -17,12 +19,16 @@ META = dict(
                 "dequeued characteristic has the notification resp. indication bit set for this connection; it starts with 0x1B / 0x1D by kind, "
                 "carries handle_by_index(value attribute index) and exactly the bytes the attribute's access function produced for a read at offset "
                 "0 with this connection's security attributes, and is at most min(negotiated MTU, buffer) long; otherwise nothing is sent. Repeated "
-                "requests: the notification queue's add() is idempotent (C12 contracts), so one pending entry yields one PDU.",
-    assumptions=["NOT decided (type level): that the client-configuration index computed when a notification is requested - by bound value "
-                 "(find_notification_data: position in the declaration-ordered list) or by UUID (find_notification_by_uuid) - designates the same "
-                 "characteristic as the index find_notification_data_by_index resolves when the entry is dequeued (priority-sorted list), with or "
-                 "without higher/lower_outgoing_priority. These are template meta functions evaluated by the compiler; no function body exists to put "
-                 "under contract. Suspected defect F-C10 of DESIGN.md 9 lives there and is not confirmed by this check",
+                "requests: the notification queue's add() is idempotent (C12 contracts), so one pending entry yields one PDU. The index a request by value is queued under is the one "
+                "l2cap_output resolves (unit notification_index).",
+    assumptions=["find_notification_data.hpp, real bodies (unit notification_index): the two functors attribute_at / attribute_value and the two lookups; the type lists they are folded over are "
+                 "abstract arrays - characteristics in declaration order and the same characteristics sorted by outgoing priority, related by a symbolic permutation; the fold "
+                 "for_< List >::each is glue with a loop contract. Proved: find_notification_data_by_index( i ) names the i-th characteristic of the SORTED list, and "
+                 "find_notification_data( value ) returns the position of the value's characteristic in that same sorted list (finding F-C10, fixed: it used the declaration order)",
+                 "NOT decided (type level): that find_notification_by_uuid< .. >::data() (a constant of the sorted list) and the CCCD flag slot of a characteristic "
+                 "(index_of< ClientCharacteristicIndex, cccd_indices >) denote that same position, and that stable_sort / fold_left build the lists as named - template meta programs "
+                 "evaluated by the compiler; seeded/C10_cccd_indices_inverse_permutation lives there and is not reported; the native replay compares by-value and by-UUID requests "
+                 "on real servers for every priority placement",
                  "server::notify / indicate bodies only forward the computed index to the link layer callback (read, not proved)"],
     trusted_base=["link layer notification queue wiring (queue_lcap_notification)"],
 )
